@@ -35,7 +35,7 @@ var vfFreqPtsThorough = []vfFreq{
 }
 
 var vfAlphas = []float64{0.5, 1, 2}
-var vfAlphasThorough = []float64{7.0 / 3.0, 0.25, 5}
+var vfAlphasThorough = []float64{7.0 / 3.0, 4, 5}
 
 // vfObs: observed proportions of the 4-site pair, computed from the definition.
 type vfObs struct {
@@ -197,13 +197,13 @@ func vfEstJC(alphas []float64, o vfObs) {
 
 // H_C07_est_jc: JCModel.Distance equals -3/4 ln(1-4p/3) (gamma: 3/4 a((1-4p/3)^(-1/a)-1)); zero without differences; >= p; undefined never reported as a small finite value.
 // bounds: the 4-kind pair, each site selected or not (symbolic), free positive dyadic weights k/2 (k=1..8) (so also: no comparable site); plain and gamma with alpha in {1/2, 1, 2}
-// outside: other alpha (thorough twin: 7/3, 1/4, 5), weights off the grid; for alpha = 1/2 and 1 the engine computes x^(-1/alpha) exactly and "d >= p" / the graded saturation assertion are not stated separately (nonlinear; they follow from the closed form resp. the stronger saturation assertion); IEEE rounding is outside the claim: floats are exact reals; ln/pow are uninterpreted with the axioms of DESIGN.md §2.4
+// outside: other alpha (thorough twin: 7/3, 4, 5), weights off the grid; for alpha = 1/2 and 1 the engine computes x^(-1/alpha) exactly and "d >= p" / the graded saturation assertion are not stated separately (nonlinear; they follow from the closed form resp. the stronger saturation assertion); IEEE rounding is outside the claim: floats are exact reals; ln/pow are uninterpreted with the axioms of DESIGN.md §2.4
 func H_C07_est_jc() {
 	vfEstJC(vfAlphas, vfPair(1, 8))
 }
 
 // H_C07_est_jc_deep: as H_C07_est_jc at more alphas and a finer weight grid.
-// bounds: weights k/2 (k=1..40), alpha in {7/3, 1/4, 5}
+// bounds: weights k/2 (k=1..40), alpha in {7/3, 4, 5}
 // outside: IEEE rounding is outside the claim: floats are exact reals
 //verif: tier=thorough
 func H_C07_est_jc_deep() {
@@ -233,7 +233,7 @@ func H_C07_est_k2p() {
 }
 
 // H_C07_est_k2p_deep: as H_C07_est_k2p at more alphas and a finer weight grid.
-// bounds: weights k/2 summing to 20, alpha in {7/3, 1/4, 5}
+// bounds: weights k/2 summing to 20, alpha in {7/3, 4, 5}
 // outside: IEEE rounding is outside the claim: floats are exact reals
 //verif: tier=thorough
 func H_C07_est_k2p_deep() {
@@ -263,7 +263,7 @@ func H_C07_est_f81() {
 }
 
 // H_C07_est_f81_deep: as H_C07_est_f81 at more sample points.
-// bounds: frequencies (1/10,2/10,3/10,4/10), (1/16,1/16,1/8,3/4), (3/8,1/8,3/8,1/8); alpha in {7/3, 1/4, 5}; weights k/2 summing to 20
+// bounds: frequencies (1/10,2/10,3/10,4/10), (1/16,1/16,1/8,3/4), (3/8,1/8,3/8,1/8); alpha in {7/3, 4, 5}; weights k/2 summing to 20
 // outside: IEEE rounding is outside the claim: floats are exact reals
 //verif: tier=thorough
 func H_C07_est_f81_deep() {
@@ -300,7 +300,7 @@ func H_C07_est_f84() {
 }
 
 // H_C07_est_f84_deep: as H_C07_est_f84 at more sample points.
-// bounds: frequencies (1/10,2/10,3/10,4/10), (1/16,1/16,1/8,3/4), (3/8,1/8,3/8,1/8); alpha in {7/3, 1/4, 5}; weights k/2 summing to 20
+// bounds: frequencies (1/10,2/10,3/10,4/10), (1/16,1/16,1/8,3/4), (3/8,1/8,3/8,1/8); alpha in {7/3, 4, 5}; weights k/2 summing to 20
 // outside: IEEE rounding is outside the claim: floats are exact reals
 //verif: tier=thorough
 func H_C07_est_f84_deep() {
@@ -337,7 +337,7 @@ func H_C07_est_tn93() {
 }
 
 // H_C07_est_tn93_deep: as H_C07_est_tn93 at more sample points.
-// bounds: frequencies (1/10,2/10,3/10,4/10), (1/16,1/16,1/8,3/4), (3/8,1/8,3/8,1/8); alpha in {7/3, 1/4, 5}; weights k/2 summing to 20
+// bounds: frequencies (1/10,2/10,3/10,4/10), (1/16,1/16,1/8,3/4), (3/8,1/8,3/8,1/8); alpha in {7/3, 4, 5}; weights k/2 summing to 20
 // outside: IEEE rounding is outside the claim: floats are exact reals
 //verif: tier=thorough
 func H_C07_est_tn93_deep() {
